@@ -32,6 +32,7 @@ theorem applyGo_cons_ok (pos : Nat) (e : Edit) (es : List Edit) (s : List Nat)
       (applyGo e.e es (s.drop (e.e - pos))).map (fun t => s.take (e.s - pos) ++ e.rep ++ t) := by
   simp only [applyGo]
   rw [if_neg]
+  rw [lenLt_iff]
   omega
 
 /-- a character in front of every edit is copied -/
@@ -42,8 +43,8 @@ theorem applyGo_shift (n pos : Nat) (es : List Edit) (c : Nat) (cs : List Nat)
   | nil => simp [applyGo]
   | cons e es =>
     obtain ⟨h1, h2, _, _⟩ := h
-    simp only [applyGo, List.length_cons]
-    by_cases hc : e.s < pos + 1 ∨ e.e < e.s ∨ pos + 1 + cs.length < e.e
+    simp only [applyGo, lenLt_iff, List.length_cons]
+    by_cases hc : e.s < pos + 1 ∨ e.e < e.s ∨ cs.length < e.e - (pos + 1)
     · rw [if_pos hc, if_pos (by omega)]; rfl
     · rw [if_neg hc, if_neg (by omega)]
       have e1 : e.s - pos = (e.s - (pos + 1)) + 1 := by omega
@@ -314,6 +315,36 @@ theorem charOut_eq_spec (U : Uni) (hU : UniOk U) (ignore : List Nat) (pos c : Na
     rw [charOut_of_data pos c _ (hU.nfkc_ne _ (hU.lower_ne c)) (hU.nfkcl_head c)]
     simp [specChar, needNfkc_true hn]
 
+/-! ## the exact assumption
+
+`UniOk` is a convenient SUFFICIENT set of facts.  What the code needs of the Unicode tables — no more, no
+less (`C07.uni_assumption_exact`) — is `CharOk`: for every character and either exemption status, what step 2
+of `replace_slow` writes is the specification's image of the character.  The harness evaluates both on real
+data for every character it ships. -/
+
+/-- per character: the code's output (`charOut`) is lower-casing followed, unless exempt, by NFKC -/
+def CharOk (U : Uni) : Prop := ∀ (exempt : List Nat) (c : Nat), charOut U exempt 0 c = specChar U exempt c
+
+theorem charOut_pos (U : Uni) (ignore : List Nat) (pos pos' c : Nat) :
+    charOut U ignore pos c = charOut U ignore pos' c := by
+  unfold charOut
+  cases charData U ignore c with
+  | none => rfl
+  | some l => cases l with
+    | nil => rfl
+    | cons d ds =>
+      simp only [charEdit]
+      by_cases hd : d = c
+      · simp [hd]
+      · simp [hd]
+
+theorem UniOk.charOk {U : Uni} (hU : UniOk U) : CharOk U :=
+  fun ignore c => charOut_eq_spec U hU ignore 0 c
+
+theorem CharOk.at {U : Uni} (hC : CharOk U) (ignore : List Nat) (pos c : Nat) :
+    charOut U ignore pos c = specChar U ignore c := by
+  rw [charOut_pos U ignore pos 0 c]; exact hC ignore c
+
 /-! ## slow path = specification -/
 
 theorem slowGo_edits_ok (U : Uni) (T : Table) (e : Bool) : ∀ (s : List Nat) (pos mo : Nat),
@@ -351,7 +382,7 @@ theorem slowGo_edits_ok (U : Uni) (T : Table) (e : Bool) : ∀ (s : List Nat) (p
           rw [hlen]
           exact (ih (pos + 1) mo (by omega)).weaken (by omega)
 
-theorem slowGo_spec (U : Uni) (hU : UniOk U) (T : Table) : ∀ (s : List Nat) (pos mo : Nat),
+theorem slowGo_spec (U : Uni) (hU : CharOk U) (T : Table) : ∀ (s : List Nat) (pos mo : Nat),
     mo ≤ pos + s.length →
     applyGo pos (slowGo U T false pos mo s) s =
       some (s.take (mo - pos) ++ normSpec U T (s.drop (mo - pos))) := by
@@ -404,7 +435,7 @@ theorem slowGo_spec (U : Uni) (hU : UniOk U) (T : Table) : ∀ (s : List Nat) (p
       | none =>
         have hl : longestAt T.pairs (c :: cs) = none := by simpa [anchoredFind] using hf
         simp only
-        rw [normSpec_none U T c cs hl, ← charOut_eq_spec U hU T.ignore pos c]
+        rw [normSpec_none U T c cs hl, ← hU.at T.ignore pos c]
         unfold charOut
         have hrest := ih (pos + 1) mo (by omega)
         rw [show mo - (pos + 1) = 0 by omega, List.take_zero, List.drop_zero, List.nil_append] at hrest
@@ -498,7 +529,7 @@ theorem quickGo_yes (U : Uni) : ∀ (s : List Nat) (last : Nat) (r : QC), quickG
           obtain ⟨h1, _⟩ := ih _ _ h
           cases h1
 
-theorem plain_of_fast (U : Uni) (hU : UniOk U) (ignore : List Nat) (s : List Nat)
+theorem plain_of_fast (U : Uni) (hU : CharOk U) (ignore : List Nat) (s : List Nat)
     (h : useSlow U s = false) : ∀ c ∈ s, specChar U ignore c = [c] := by
   unfold useSlow at h
   simp only [Bool.or_eq_false_iff, bne_eq_false_iff_eq, List.any_eq_false] at h
@@ -506,13 +537,16 @@ theorem plain_of_fast (U : Uni) (hU : UniOk U) (ignore : List Nat) (s : List Nat
   have hq' := (quickGo_yes U s 0 QC.yes hq).2
   intro c hc
   have hu : U.isUpper c = false := by simpa using hup c hc
-  unfold specChar
-  rw [hU.lower_id c hu, hU.nfkc_id c (hq' c hc)]
-  simp
+  rw [← hU ignore c]
+  unfold charOut
+  rw [charData_eq, hu]
+  have hn : needNfkc U ignore c = false := by
+    unfold needNfkc; rw [hq' c hc]; simp
+  simp [hn, charEdit]
 
 /-! ## the default plugin as a whole -/
 
-theorem defaultEdits_spec (U : Uni) (hU : UniOk U) (T : Table) (s : List Nat) :
+theorem defaultEdits_spec (U : Uni) (hU : CharOk U) (T : Table) (s : List Nat) :
     applyEdits (defaultEdits U T false s) s = some (normSpec U T s) := by
   unfold applyEdits defaultEdits
   cases h : useSlow U s
@@ -530,6 +564,34 @@ theorem defaultEdits_ok (U : Uni) (T : Table) (e : Bool) (s : List Nat) :
     simpa [replaceSlow] using this
   · have := fastGo_edits_ok T.pairs 0 s
     simpa [replaceFast] using this
+
+/-- a one-character text over a table without keys: both paths write `charOut` -/
+theorem defaultEdits_single (U : Uni) (ignore : List Nat) (c : Nat) :
+    applyEdits (defaultEdits U ⟨ignore, []⟩ false [c]) [c] = some (charOut U ignore 0 c) := by
+  unfold defaultEdits
+  cases hs : useSlow U [c]
+  · -- fast path: no edit, and `charOut` is the character itself
+    simp only [Bool.false_eq_true, if_false]
+    have hplain : charOut U ignore 0 c = [c] := by
+      unfold useSlow at hs
+      simp only [Bool.or_eq_false_iff, bne_eq_false_iff_eq, List.any_cons, List.any_nil, Bool.or_false] at hs
+      unfold charOut
+      rw [charData_eq, hs.2]
+      have hn : needNfkc U ignore c = false := by unfold needNfkc; rw [hs.1]; simp
+      simp [hn, charEdit]
+    rw [hplain]
+    simp [applyEdits, replaceFast, fastGo, longestAt, applyGo]
+  · simp only [if_true]
+    unfold charOut
+    simp only [applyEdits, replaceSlow, slowGo, anchoredFind, longestAt, Nat.lt_irrefl, if_false,
+      Bool.false_eq_true]
+    cases hc : charEdit 0 c (charData U ignore c) with
+    | none => simp [applyGo]
+    | some ed =>
+      obtain ⟨h1, h2⟩ := charEdit_shape hc
+      simp only
+      rw [applyGo_cons_ok 0 ed [] [c] (by omega) (by omega) (by simp; omega)]
+      simp [h1, h2, applyGo]
 
 /-! ## context freedom of the specification -/
 
